@@ -289,8 +289,8 @@ def h5(cx):
                 r = strip(x['rhs'])
                 if steps[-1:] == [VALUE] and '@' in steps and r[0] == 'agg' and r[2].endswith('Option::Some'):
                     writers.append((fn, g, x))
-    labels = sorted({cx.label(f) for f, g, x in writers})
-    ok = labels == ['<scheduler::Remote<Fut> as Future>::poll']
+    labels = sorted({roles.stable_label(cx, f) for f, g, x in writers})      # generic-free, private names by role
+    ok = labels == ['<scheduler::Remote as Future>::poll']
     res.append(Finding(ID, 'H5', 'writers of HandleInfo.value', ok, 'value = Some(..) is written only by %s' % labels, writers[0][0]['span'] if writers else ''))
     for f, g, x in writers:
         # the stored value is the Ready payload of the inner poll
@@ -315,11 +315,14 @@ def h6(cx):
     F = cx.facts
     res = []
     ims = F.impls_of('scheduler::Scheduler')
+    # the one macro (by whatever name) that every schedule() is an instance of
+    sets = [set(e['m'] for e in (F.impl_fn(im, 'schedule') or {}).get('expn', [])) for im in ims]
+    shared = set.intersection(*sets) if sets else set()
     for im in sorted(ims, key=lambda i: i['self_s']):
         fn = F.impl_fn(im, 'schedule')
         macros = [e['m'] for e in fn.get('expn', [])]
-        ok = 'impl_scheduler_method' in macros
-        res.append(Finding(ID, 'H6', cx.label(fn), ok, 'instance of impl_scheduler_method!' if ok else 'hand-written schedule(): not an instance of the shared macro', fn['span']))
+        ok = bool(shared) and any(m in shared for m in macros)
+        res.append(Finding(ID, 'H6', cx.label(fn), ok, 'instance of the shared macro %s!' % sorted(shared)[:1] if ok else 'hand-written schedule(): not an instance of the shared macro', fn['span']))
     if len(ims) < 2:
         res.append(Finding(ID, 'H6', 'floor', False, 'expected >= 2 Scheduler impls, found %d' % len(ims)))
     return res
